@@ -82,89 +82,78 @@ func checkC04(c *Ctx, r *Report) {
 		})
 	}
 	r.Floor("C04.R1", nStore, 1, "cache store call sites in package proxy")
+	bs := &boolSummer{li: li}
 	for _, f := range c.FuncsNamed("(*" + proxyPkg + ".fetcher).shouldResponseBeCached") {
-		eachInstr(f, func(in ssa.Instruction) {
-			ret, ok := in.(*ssa.Return)
-			if !ok {
-				return
-			}
-			atoms := factList(conjuncts(f, ret.Results[0], 0))
-			var sc, st, me bool
-			extra := []string{}
-			for _, a := range atoms {
-				switch {
-				case strings.HasPrefix(a, "ShouldCache(") && strings.HasSuffix(a, "=true"):
-					if strings.Contains(a, "Read(&$f.cfg.Proxy.CachePolicy.IgnoreCacheControl)") {
-						sc = true
-					} else {
-						extra = append(extra, a+" (ShouldCache is not given the live ignore_cache_control setting)")
-					}
-				case a == "$resp.StatusCode==200=true":
-					st = true
-					statusConjunct = true
-				case a == `$resp.Request.Method=="GET"=true` || a == `$req.Method=="GET"=true`:
-					me = true
-				default:
-					extra = append(extra, a)
+		liveIgnore := false
+		classify := func(a string) string {
+			switch {
+			case strings.HasPrefix(a, "ShouldCache("):
+				if strings.Contains(a, "IgnoreCacheControl") && strings.Contains(a, "Read(") {
+					liveIgnore = true
 				}
+				return "shouldCache"
+			case strings.HasSuffix(a, ".StatusCode==200"):
+				statusConjunct = true
+				return "status200"
+			case strings.HasSuffix(a, `.Method=="GET"`):
+				return "methodGET"
 			}
-			var missing []string
-			if !sc {
-				missing = append(missing, "ShouldCache(ignore_cache_control)")
-			}
-			if !st {
-				missing = append(missing, "StatusCode == 200")
-			}
-			if !me {
-				missing = append(missing, "Method == GET")
-			}
-			msg := ""
-			if len(missing) > 0 {
-				msg += "missing conjunct(s): " + strings.Join(missing, ", ") + " (over-stores). "
-			}
-			if len(extra) > 0 {
-				msg += "unexpected conjunct(s): " + strings.Join(extra, ", ") + " (storable responses are not stored)."
-			}
-			r.Check(msg == "", "C04.R1", "shouldResponseBeCached = ShouldCache ∧ 200 ∧ GET", c.InstrPos(ret), "exactly the three conjuncts: "+strings.Join(atoms, " ∧ "), msg+" [found: "+strings.Join(atoms, " ∧ ")+"]")
+			return ""
+		}
+		ok, detail, _ := bs.checkTable(f, 0, classify, func(v map[string]bool) (bool, bool) {
+			return v["shouldCache"] && v["status200"] && v["methodGET"], true
 		})
+		r.Check(ok, "C04.R1", "shouldResponseBeCached = ShouldCache ∧ 200 ∧ GET", c.Pos(f.Pos()), detail, "the store predicate is not exactly ShouldCache ∧ StatusCode==200 ∧ Method==GET: "+detail)
+		r.Check(liveIgnore, "C04.R1", "ShouldCache receives the live ignore_cache_control setting", c.Pos(f.Pos()), "IgnoreCacheControl.Read()", "ShouldCache is not given cfg.Proxy.CachePolicy.IgnoreCacheControl.Read()")
 	}
 
-	// ---- R2
+	// ---- R2: the whole truth table of ShouldCache (helpers expanded)
 	for _, f := range c.FuncsNamed("(*" + headersPkg + ".HeaderDirectives).ShouldCache") {
-		var haveNoCache, haveMaxAge, haveExpires bool
-		n := 0
-		eachInstr(f, func(in ssa.Instruction) {
-			ret, ok := in.(*ssa.Return)
-			if !ok {
-				return
+		ignoreName := "$ignoreCacheControl"
+		if len(f.Params) >= 2 {
+			ignoreName = "$" + f.Params[1].Name()
+		}
+		classify := func(a string) string {
+			switch {
+			case a == ignoreName:
+				return "ignore"
+			case strings.Contains(a, "IsPresent(") && strings.Contains(a, ".CacheControl"):
+				return "ccPresent"
+			case strings.Contains(a, "IsPresent(") && strings.Contains(a, ".Expires"):
+				return "expPresent"
+			case strings.Contains(a, "IsPresent(") && strings.Contains(a, ".Range"):
+				return "rangePresent"
+			case strings.HasSuffix(a, ".noCache"):
+				return "noCache"
+			case strings.HasSuffix(a, ".maxAge>0"):
+				return "maxAgePos"
+			case strings.HasPrefix(a, "Before(") && strings.Contains(a, ".Expires") && strings.Contains(a, "Now()") && strings.Index(a, ".Expires") < strings.Index(a, "Now()"):
+				return "expPast"
+			case strings.HasPrefix(a, "After(Now()") && strings.Contains(a, ".Expires"):
+				return "expPast"
+			case strings.HasPrefix(a, "After(") && strings.Contains(a, ".Expires") && strings.Contains(a, "Now()") && strings.Index(a, ".Expires") < strings.Index(a, "Now()"):
+				return "!expPast"
 			}
-			b, isC := constBool(ret.Results[0])
-			if !isC || b {
-				return
+			return ""
+		}
+		spec := func(v map[string]bool) (bool, bool) {
+			switch {
+			case v["rangePresent"]:
+				return false, true
+			case v["ignore"]:
+				return true, true
+			case v["ccPresent"]:
+				if v["noCache"] {
+					return false, true
+				}
+				return v["maxAgePos"], true
+			default:
+				return !(v["expPresent"] && v["expPast"]), true
 			}
-			n++
-			fs := factStrs(f, ret)
-			key := fmt.Sprintf("ShouldCache refusal #%d", n)
-			gated := hasFact(fs, "$ignoreCacheControl", false)
-			rangeGuard := hasFact(fs, "IsPresent(&$hd.Range)", true)
-			r.Check(gated || rangeGuard, "C04.R2", key+" is policy-gated", c.InstrPos(ret), "requires ignore_cache_control == false (or is the Range guard)", "ShouldCache refuses although the operator chose to ignore origin cache directives: "+strings.Join(keysOf(fs), " ∧ "))
-			if gated && hasFact(fs, "IsPresent(&$hd.CacheControl)", true) && hasFact(fs, ".noCache", true) {
-				haveNoCache = true
-			}
-			if gated && hasFact(fs, "IsPresent(&$hd.CacheControl)", true) && (hasFact(fs, ".maxAge<1", true) || hasFact(fs, ".maxAge<=0", true) || hasFact(fs, ".maxAge>0", false) || hasFact(fs, ".maxAge>=1", false)) {
-				haveMaxAge = true
-			}
-			if gated && hasFact(fs, "IsPresent(&$hd.Expires)", true) && hasFact(fs, "Before(Value(&$hd.Expires),Now())", true) {
-				haveExpires = true
-				// Expires must not veto a positive max-age
-				vetoes := !(hasFact(fs, "hasMaxAge", false) || hasFact(fs, "IsPresent(&$hd.CacheControl)", false) || hasFact(fs, ".maxAge>0", false) || hasFact(fs, ".maxAge<1", true))
-				r.Check(!vetoes, "C04.R2", "past Expires refuses only without a positive max-age", c.InstrPos(ret), "the Expires refusal is on the no-positive-max-age side", "a past Expires refuses a response that carries a positive max-age (max-age has priority)")
-			}
-		})
-		r.Check(haveNoCache, "C04.R2", "refusal for the no-cache/no-store/private flag", c.Pos(f.Pos()), "present", "ShouldCache has no refusal for the noCache flag")
-		r.Check(haveMaxAge, "C04.R2", "refusal for max-age < 1", c.Pos(f.Pos()), "present", "ShouldCache has no refusal for max-age < 1")
-		r.Check(haveExpires, "C04.R2", "refusal for a past Expires", c.Pos(f.Pos()), "present", "ShouldCache has no refusal for an Expires date in the past")
-		r.Floor("C04.R2", n, 3, "refusal returns of ShouldCache")
+		}
+		ok, detail, n := bs.checkTable(f, 0, classify, spec)
+		r.Check(ok, "C04.R2", "ShouldCache implements the storability table", c.Pos(f.Pos()), detail, "ShouldCache deviates from: store iff no Range marker and (directives ignored, or Cache-Control present without no-cache/no-store/private and max-age>0, or no Cache-Control and no past Expires): "+detail)
+		r.Floor("C04.R2", n, 32, "rows of ShouldCache's truth table")
 	}
 
 	// ---- R3 directive table
